@@ -406,6 +406,57 @@ class ComputeCoefficients(FunctionContract):
         return (bool(pr), {"native_harness_problems": pr[:3], "controls": c, "payoff_dimension": d, "prices": kind})
 
 
+class ControlUnderlyings(Lemma):
+    """ControlVariates.initialisation + process (real bodies) with controls written on the n-th spot while the priced product is
+    written on the whole spot vector: every control is evaluated from the product's payoff underlying of THIS path (its own
+    component), through the four-argument call the engine makes."""
+    prop = "C07"
+    cases = (2, 3)
+
+    def __init__(self):
+        self.name = "property:controls-on-the-nth-spot"
+
+    def prove(self, vc, d):
+        from pyvc.sym import PyRaise
+        nm = f"{self.name}[{d} names]"
+        it = vc.interp
+        UND = "rpylib.product.underlying:"
+        PAYK = z3.Function("CONTROL_PRODUCT_PAYOFF", z3.IntSort(), z3.RealSort(), z3.RealSort())
+        pay = lambda k, u: Sym(PAYK(z3.IntVal(k), as_real_term(lift(u))), "r")
+        it.hooks["rpylib.product.product:Product.__call__"] = lambda it_, f, b: pay(b["self"].fields["tag"], [v for k_, v in b.items() if k_ != "self"][0])
+        prods = [vc.obj("rpylib.product.product:Product", payoff_underlying=vc.new(UND + "NthSpot", k + 1), tag=k) for k in range(d)]
+        cv = vc.obj("rpylib.product.product:ControlVariates", products=prods, prices=[0.0] * d, nb_cvs=d, _underlying_functions=[])
+        vc.method(cv, "initialisation", it.get_class(UND + "Spot"))
+        pu = np.array(vc.reals("spot_at_maturity", d), dtype=object)
+        times = np.array([0.0, 1.0])
+        path = np.array(vc.reals("path", 2 * d), dtype=object).reshape(d, 2)
+        try:
+            res = vc.method(cv, "process", times, path, path, pu)
+        except PyRaise as e:
+            vc.check(nm + f"::controls-are-evaluated[{e.exc_type}]", False)
+            return
+        res = list(np.ravel(np.asarray(res, dtype=object)))
+        vc.check(nm + "::one-value-per-control", len(res) == d)
+        for k in range(min(d, len(res))):
+            vc.check(nm + f"::control{k}-is-its-own-product-on-its-own-component", compare(res[k], pay(k, pu[k]), "=="))
+
+    def replay(self, model, clause, d):
+        from rpylib.product.product import Product, ControlVariates
+        from rpylib.product.underlying import NthSpot, Spot
+        from rpylib.product.payoff import Vanilla, PayoffType
+        prods = [Product(payoff_underlying=NthSpot(k + 1), payoff=Vanilla(strike=1.0, payoff_type=PayoffType.CALL), maturity=1.0) for k in range(d)]
+        cv = ControlVariates(prods, [0.1] * d)
+        cv.initialisation(Spot)
+        pu = np.array([1.5 + k for k in range(d)])
+        path = np.log(np.stack([np.ones(d), pu], axis=1))
+        try:
+            res = np.ravel(np.asarray(cv.process(np.array([0.0, 1.0]), path, path, pu), dtype=float))
+        except Exception as e:
+            return (True, {"names": d, "exception": f"{type(e).__name__}: {e}"})
+        want = np.maximum(pu - 1.0, 0.0)
+        return (not np.allclose(res, want), {"names": d, "control_payoffs": res.tolist(), "expected": want.tolist()})
+
+
 class EngineInitialisation(FunctionContract):
     """Engine.initialisation(mc_paths, product), whatever an earlier price() call left in the engine: the statistics object
     of the run is created by this call for exactly mc_paths paths (so no row of an earlier run can enter the mean), the path
@@ -564,7 +615,7 @@ class StandardEngineBattery:
         return (bool(pr), {"problems": pr[:3]})
 
 
-UNITS = [EnginePrice(), EngineInitialisation(), PriceAndError(), ControlVariate(), ControlVariate2(), ComputeCoefficients()]
+UNITS = [EnginePrice(), EngineInitialisation(), PriceAndError(), ControlVariate(), ControlVariate2(), ComputeCoefficients(), ControlUnderlyings()]
 ASSUMPTIONS = ["A1: floats are mathematical reals", "the payoff of a path is a function of the path (C17); simulate_one_path returns a fresh path per call",
                f"estimator algebra: every sample size n <= {N_SAMPLES} (symbolic values)"]
 TRUSTED_BASE = ["z3 5.1 (LRA/NRA + arrays)", "pyvc interpreter + numpy models (mean, std, cov, inv for 1x1/2x2)"]
